@@ -8,14 +8,17 @@ import (
 	"time"
 
 	sdk "github.com/cosmos/cosmos-sdk/types"
+	"github.com/ethereum/go-ethereum/common"
 
 	clienttypes "github.com/bianjieai/tibc-go/modules/tibc/core/02-client/types"
 	packettypes "github.com/bianjieai/tibc-go/modules/tibc/core/04-packet/types"
+	host "github.com/bianjieai/tibc-go/modules/tibc/core/24-host"
 	"github.com/bianjieai/tibc-go/modules/tibc/core/exported"
 	ibctm "github.com/bianjieai/tibc-go/modules/tibc/light-clients/07-tendermint/types"
 	bsctypes "github.com/bianjieai/tibc-go/modules/tibc/light-clients/08-bsc/types"
 	ethtypes "github.com/bianjieai/tibc-go/modules/tibc/light-clients/09-eth/types"
 
+	"verif/model"
 	"verif/mon"
 	"verif/vnet"
 	"verif/world"
@@ -158,7 +161,93 @@ func TestC14(t *testing.T) {
 		w := world.New(fmt.Sprintf("exp%d", i), net, rng)
 		return w, func() { expiredScenario(w, rng, rec) }
 	})
+	// (c) BSC / ETH clients on the packet path: a genuine Merkle-Patricia proof through an active client is accepted,
+	// the same kind of proof through an expired client is refused
+	rec.Require("ethlike-active-accepted", "ethlike-expired-refused")
+	for i := 0; i < mon.Scale(6, 60); i++ {
+		ethLikeExpired(rec, rand.New(rand.NewSource(seed*977+int64(i))), seed*977+int64(i))
+	}
 	setExit(rec.Finish())
+}
+
+// ethLikeExpired: chain X gets an ETH and a BSC client of a synthetic Ethereum-style world that holds packet
+// commitments destined to X; MsgRecvPacket with the genuine account+storage proof is delivered through BaseApp while the
+// client is inside, then past, its trusting period.
+func ethLikeExpired(rec *mon.Recorder, rng *rand.Rand, seed int64) {
+	net := vnet.New(seed, rng, []string{"alphachain"}, 1, 3)
+	X := net.Chains[0]
+	var contract common.Address
+	rng.Read(contract[:])
+	for _, typ := range []string{exported.ETH, exported.BSC} {
+		name := "eth-mainnet"
+		if typ == exported.BSC {
+			name = "bsc-mainnet"
+		}
+		storage := map[string][]byte{}
+		var pkts []packettypes.Packet
+		for q := uint64(1); q <= 4; q++ {
+			p := packettypes.NewPacket([]byte(fmt.Sprintf("from-%s-%d", name, q)), q, name, X.Name, "", world.MockPort)
+			pkts = append(pkts, p)
+			storage[string(host.PacketCommitmentKey(name, X.Name, q))] = model.Word(world.Sha(p.Data))
+		}
+		w := model.NewEthWorld(contract, storage, 5)
+		period := uint64(1000 + rng.Intn(100000))
+		now := uint64(net.Now.Unix())
+		hProof, hLatest := uint64(1000), uint64(1030)
+		var cs exported.ClientState
+		var consAt func(h uint64, ts uint64) exported.ConsensusState
+		if typ == exported.ETH {
+			cs = &ethtypes.ClientState{Header: ethtypes.Header{Height: clienttypes.NewHeight(0, hLatest), Difficulty: "1", BaseFee: "1"}, ChainId: 1, ContractAddress: contract[:], TrustingPeriod: period, BlockDelay: 3}
+			consAt = func(h, ts uint64) exported.ConsensusState {
+				return &ethtypes.ConsensusState{Timestamp: ts, Number: clienttypes.NewHeight(0, h), Root: w.Root[:]}
+			}
+		} else {
+			vals := [][]byte{make([]byte, 20), make([]byte, 20), make([]byte, 20)}
+			cs = &bsctypes.ClientState{Header: bsctypes.Header{Height: clienttypes.NewHeight(0, hLatest), Difficulty: 2, Extra: make([]byte, 97)}, ChainId: 56, Epoch: 200, BlockInteval: 3, Validators: vals, ContractAddress: contract[:], TrustingPeriod: period}
+			consAt = func(h, ts uint64) exported.ConsensusState {
+				return &bsctypes.ConsensusState{Timestamp: ts, Number: clienttypes.NewHeight(0, h), Root: w.Root[:]}
+			}
+		}
+		// the client is installed directly in the store (header verification is C17/C18's subject)
+		r := X.Exec(func(ctx sdk.Context) error {
+			ck := X.App.TIBCKeeper.ClientKeeper
+			ck.SetClientState(ctx, name, cs)
+			ck.SetClientConsensusState(ctx, name, clienttypes.NewHeight(0, hProof), consAt(hProof, now-10))
+			ck.SetClientConsensusState(ctx, name, clienttypes.NewHeight(0, hLatest), consAt(hLatest, now-5))
+			return nil
+		})
+		if !r.OK() {
+			rec.Inconclusive("could not install " + typ + " client")
+			return
+		}
+		deliver := func(p packettypes.Packet) *vnet.Result {
+			proof := w.Prove(host.PacketCommitmentKey(p.SourceChain, p.DestinationChain, p.Sequence)).JSON()
+			m := packettypes.NewMsgRecvPacket(p, proof, clienttypes.NewHeight(0, hProof), X.Relayer.Addr)
+			return X.Deliver(X.Relayer, m)
+		}
+		// inside the trusting period
+		r1 := deliver(pkts[0])
+		rec.Judge("ethlike/"+typ+"/active", r1.OK())
+		if r1.OK() {
+			rec.Count("ethlike-active-accepted", 1)
+		} else {
+			rec.Violate("active-client-refused", map[string]string{"msg": "recv", "client": typ}, r1.Log, nil)
+		}
+		// exactly at the boundary second (not judged), then past it
+		net.Now = time.Unix(int64(now-5+period), int64(rng.Intn(1_000_000_000))).UTC()
+		deliver(pkts[1])
+		rec.Count("ethlike-boundary-not-judged", 1)
+		net.Now = time.Unix(int64(now-5+period)+1+int64(rng.Intn(1000)), int64(rng.Intn(1_000_000_000))).UTC()
+		r3 := deliver(pkts[2])
+		rec.Judge("ethlike/"+typ+"/expired", r3.OK())
+		rec.Count("ethlike-expired-refused", 1)
+		if r3.OK() {
+			rec.Violate("expired-client-used", map[string]string{"msg": "recv", "client": typ},
+				fmt.Sprintf("%s accepted a receive proven through its %s client %d s past the trusting period", X.Name, typ, uint64(net.Now.Unix())-(now-5+period)), nil)
+		} else if len(r3.Diff) != 0 {
+			rec.Violate("refused-msg-changed-state", map[string]string{"msg": "recv"}, r3.Log, nil)
+		}
+	}
 }
 
 // expiredScenario prepares one pending receive, one pending ack and one pending
